@@ -18,6 +18,7 @@ import (
 	"math/big"
 	"os"
 	"sort"
+	"strings"
 	"time"
 
 	"github.com/bartossh/Computantis/src/accountant"
@@ -42,6 +43,7 @@ type trxSpec struct {
 	Rcv  string `json:"rcv"`
 	Amt  int64  `json:"amt"`
 	Data bool   `json:"data"`
+	NC   bool   `json:"nc"` // the amount is encoded non canonically (supplementary >= 10^18)
 }
 
 type ledgerCfg struct {
@@ -190,7 +192,15 @@ func newWorld(cfg ledgerCfg, out *json.Encoder) (*world, error) {
 		if ts.Data {
 			data = []byte("contract payload of " + ts.ID)
 		}
-		t, err := transaction.New("subject "+ts.ID, w.toMelange(ts.Amt), data, rcv.Address(), iss)
+		amount := w.toMelange(ts.Amt)
+		if ts.NC {
+			// the same value with one unit of currency moved into the supplementary part
+			if amount.Currency == 0 {
+				amount.Currency = 1
+			}
+			amount = spice.Melange{Currency: amount.Currency - 1, SupplementaryCurrency: amount.SupplementaryCurrency + 1000000000000000000}
+		}
+		t, err := transaction.New("subject "+ts.ID, amount, data, rcv.Address(), iss)
 		if err != nil {
 			return nil, err
 		}
@@ -458,7 +468,8 @@ func (w *world) vtxRec(id int) event {
 	}
 	return event{"id": id, "sealer": w.name(v.SignerPublicAddress), "l": par(v.LeftParentHash), "r": par(v.RightParentHash),
 		"w": v.Weight, "ok": w.selfAuthentic(v),
-		"trx": event{"id": tn, "iss": w.name(t.IssuerAddress), "rcv": w.name(t.ReceiverAddress), "amt": amt, "data": t.IsContract()}}
+		"trx": event{"id": tn, "iss": w.name(t.IssuerAddress), "rcv": w.name(t.ReceiverAddress), "amt": amt, "data": t.IsContract(),
+			"nc": t.Spice.SupplementaryCurrency >= 1000000000000000000}}
 }
 
 func (w *world) addVertex(v accountant.Vertex, modelID int) int {
@@ -472,6 +483,9 @@ func (w *world) addVertex(v accountant.Vertex, modelID int) int {
 }
 
 var errTipInvalid = errors.New("a tip failed validation")
+
+// matched by text so that the driver builds against trees with and without the guard
+func isNonCanonical(err error) bool { return strings.Contains(err.Error(), "not canonical") }
 
 func classify(err error, pv any) string {
 	if pv != nil {
@@ -489,6 +503,8 @@ func classify(err error, pv any) string {
 		return "notloaded"
 	case errors.Is(err, accountant.ErrTrxIsEmpty):
 		return "empty"
+	case isNonCanonical(err):
+		return "noncanonical"
 	case errors.Is(err, accountant.ErrCannotTransferFoundsViaOwnedNode):
 		return "ownnode"
 	case errors.Is(err, accountant.ErrCannotTransferFoundsFromGenesisWallet):
